@@ -1,7 +1,7 @@
 /-
   PV.Model.Prefetch — SFTPFile prefetch / readv bookkeeping (paramiko/sftp_file.py) together with the part of
   SFTPClient._read_response that dispatches asynchronous answers, an honest short-reading server and the
-  BufferedFile.read loop (unbuffered mode) on top.
+  BufferedFile.read loop on top (unbuffered, or buffered with read-ahead: `_pos`, `_rbuffer`, `_bufsize`).
 
   Concurrent state machine.  Tasks: the reader (application thread), any number of prefetch threads
   (`_prefetch_thread`, one per `_start_prefetch`), the server.  One action = one atomic region of the code:
@@ -167,18 +167,23 @@ structure St where
   out : List (Nat × Option Nat × Bytes)
   saved : Option Nat
   raised : List (Nat × Nat)
+  pos : Nat
+  rbuf : Bytes
+  bufsize : Nat
   deriving Repr
 
-def init (file : Bytes) (maxReq : Nat) : St :=
+/-- `bufsize` = 0: unbuffered (the default); > 0: FLAG_BUFFERED with that `_bufsize` (read-ahead) -/
+def init (file : Bytes) (maxReq : Nat) (bufsize : Nat := 0) : St :=
   { file, maxReq, bufRead := 8192, fuel := 1000000, info := [], c2s := [], s2c := [], threads := [],
     extents := [], bufs := [], done := false, prefetching := false, realpos := 0, pc := .idle, out := [],
-    saved := none, raised := [] }
+    saved := none, raised := [], pos := 0, rbuf := [], bufsize := bufsize }
 
 inductive Op where
   | prefetch (fileSize : Nat) (cap : Option Nat)
   | readv (chunks : List Chunk) (cap : Option Nat)
   | seek (off : Nat)
   | read (want : Option Nat)
+  | readAt (off : Nat) (want : Option Nat)
   deriving Repr, DecidableEq
 
 inductive Act where
@@ -194,16 +199,28 @@ inductive Act where
 
 /-! ## reader-local computation -/
 
+/-- what `read` hands out of the bytes it has gathered in `_rbuffer` -/
+def resultOf (c : RCtx) : Bytes :=
+  match c.want with
+  | some w => c.acc.take w
+  | none => c.acc
+
+/-- `result = self._rbuffer[:size]; self._rbuffer = self._rbuffer[size:]; self._pos += len(result)` -/
 def finish (s : St) (c : RCtx) : St :=
-  { s with out := s.out ++ [(c.start, c.want, c.acc)], pc := .idle }
+  { s with out := s.out ++ [(c.start, c.want, resultOf c)], pc := .idle,
+           rbuf := c.acc.drop (resultOf c).length, pos := c.start + (resultOf c).length }
 
 def wantMet (c : RCtx) : Bool :=
   match c.want with
   | some w => c.acc.length ≥ w
   | none => false
 
+/-- `read_size = size - len(self._rbuffer)`, raised to `_bufsize` for a buffered file (read-ahead); reading to EOF
+    asks for `_DEFAULT_BUFSIZE` at a time; `_read` cuts everything to MAX_REQUEST_SIZE -/
 def reqSize (s : St) (c : RCtx) : Nat :=
-  min (match c.want with | some w => w - c.acc.length | none => s.bufRead) s.maxReq
+  min (match c.want with
+       | some w => if s.bufsize > 0 then max s.bufsize (w - c.acc.length) else w - c.acc.length
+       | none => s.bufRead) s.maxReq
 
 /-- BufferedFile.read loop → SFTPFile._read → _read_prefetch, up to the next shared access -/
 def advance : Nat → St → RCtx → St
@@ -245,7 +262,7 @@ def asyncResponse (s : St) (num : Nat) (r : Resp) : Option St :=
 
 /-- the running read raises `code` (an IOError passes through BufferedFile.read; what it had collected is lost) -/
 def raiseRead (s : St) (c : RCtx) (code : Nat) : St :=
-  { s with raised := s.raised ++ [(c.start, code)], pc := .idle }
+  { s with raised := s.raised ++ [(c.start, code)], pc := .idle, pos := s.realpos, rbuf := [] }
 
 /-- `_check_exception()` after `_read_response()` in `_read_prefetch`, then back to the loop -/
 def afterCheck (s : St) (c : RCtx) : St :=
@@ -310,8 +327,12 @@ def step (s : St) : Act → Option St
     match s.pc with
     | .idle =>
       match op with
-      | .seek off => some { s with realpos := off }
-      | .read want => some (advance s.fuel s { start := s.realpos, want := want, acc := [], size := 0 })
+      | .seek off => some { s with realpos := off, pos := off, rbuf := [] }
+      | .read want => some (advance s.fuel s { start := s.pos, want := want, acc := s.rbuf, size := 0 })
+      | .readAt off want =>
+        -- one step of readv's final loop: `self.seek(x[0]); yield self.read(x[1])`
+        some (advance s.fuel { s with realpos := off, pos := off, rbuf := [] }
+          { start := off, want := want, acc := [], size := 0 })
       | .prefetch fileSize cap =>
         let chunks := splitChunks s.maxReq (fileSize - s.realpos) s.realpos (fileSize - s.realpos)
         if chunks.isEmpty then some s else some (startPrefetch s chunks cap)
